@@ -46,7 +46,11 @@ val eqb : bool -> bool -> bool
 
 module Nat :
  sig
+  val eqb : nat -> nat -> bool
+
   val leb : nat -> nat -> bool
+
+  val ltb : nat -> nat -> bool
  end
 
 module Pos :
@@ -200,6 +204,8 @@ module Z :
 
   val quot : z -> z -> z
 
+  val even : z -> bool
+
   val div2 : z -> z
 
   val log2 : z -> z
@@ -218,6 +224,8 @@ module Z :
 val tl : 'a1 list -> 'a1 list
 
 val nth : nat -> 'a1 list -> 'a1 -> 'a1
+
+val rev : 'a1 list -> 'a1 list
 
 val map : ('a1 -> 'a2) -> 'a1 list -> 'a2 list
 
@@ -240,6 +248,10 @@ val w16 : z -> z
 val w32 : z -> z
 
 val w64 : z -> z
+
+val s8 : z -> z
+
+val s16 : z -> z
 
 val s32 : z -> z
 
@@ -992,3 +1004,225 @@ val std_valid : bytes -> bool
 val needs_escape_json : bool -> z -> bool
 
 val first_index : (z -> bool) -> z -> bytes -> z
+
+type terr =
+| EEOF
+| EUnexpectedEOF
+| EOther
+| EMissing
+| EMismatch
+
+type 'a tres =
+| TOk of 'a
+| TErr of terr
+| TPanic
+| TOutOfFuel
+
+val tbind : 'a1 tres -> ('a1 -> 'a2 tres) -> 'a2 tres
+
+val dont_expect_eof : 'a1 tres -> 'a1 tres
+
+type tty =
+| ThBool
+| ThI8
+| ThI16
+| ThI32
+| ThI64
+| ThF64
+| ThStr
+| ThBytes
+| ThList of tty
+| ThSet of tty
+| ThMap of tty * tty
+| ThStruct of tfield list
+| ThPtr of tty
+and tfield =
+| TField of z * z * tty
+
+type tval =
+| TvBool of bool
+| TvInt of z
+| TvBytes of bool * bytes
+| TvList of bool * tval list
+| TvSet of bool * tval list
+| TvMap of bool * (tval * tval) list
+| TvStruct of tval list
+| TvPtr of tval option
+
+type proto =
+| PBinary
+| PCompact
+
+val f_enum : z
+
+val f_required : z
+
+val f_optional : z
+
+val f_strict : z
+
+val has_flag0 : z -> z -> bool
+
+val c_STOP : z
+
+val c_TRUE : z
+
+val c_BOOL : z
+
+val c_I8 : z
+
+val c_I16 : z
+
+val c_I32 : z
+
+val c_I64 : z
+
+val c_DOUBLE : z
+
+val c_BINARY : z
+
+val c_LIST : z
+
+val c_SET : z
+
+val c_MAP : z
+
+val c_STRUCT : z
+
+val type_of : tty -> z
+
+val fld_id : tfield -> z
+
+val fld_flags : tfield -> z
+
+val fld_ty : tfield -> tty
+
+val be_bytes : nat -> z -> bytes
+
+val uvarint_fuel : nat -> z -> bytes
+
+val uvarint : z -> bytes
+
+val zz64 : z -> z
+
+val varint : z -> bytes
+
+val w_i16 : proto -> z -> bytes
+
+val w_i32 : proto -> z -> bytes
+
+val w_i64 : proto -> z -> bytes
+
+val w_f64 : proto -> z -> bytes
+
+val w_len : proto -> z -> bytes
+
+val w_bytes : proto -> bytes -> bytes
+
+val w_field : proto -> z -> z -> bytes
+
+val w_list : proto -> z -> z -> bytes
+
+val w_map : proto -> z -> z -> z -> bytes
+
+val is_zero : tval -> bool
+
+val is_zero_at : tty -> tval -> bool
+
+val is_zero_t : tty -> tval -> bool
+
+val zero_of : tty -> tval
+
+val insert_by_id :
+  (tfield * 'a1) -> (tfield * 'a1) list -> (tfield * 'a1) list
+
+val sort_by_id : (tfield * 'a1) list -> (tfield * 'a1) list
+
+val deref_bool : tval -> bool
+
+val enc : proto -> tty -> tval -> bytes
+
+val tMarshal : proto -> tty -> tval -> bytes
+
+type 'a rd = bytes -> ('a * bytes) tres
+
+val r_byte : z rd
+
+val r_full : nat -> bytes rd
+
+val be_val : bytes -> z
+
+val r_uvarint_loop : nat -> z -> z -> z -> bytes -> (z * bytes) tres
+
+val r_uvarint : z -> z rd
+
+val unzz : z -> z
+
+val r_varint : z -> z -> z rd
+
+val r_i16 : proto -> z rd
+
+val r_i32 : proto -> z rd
+
+val r_i64 : proto -> z rd
+
+val r_f64 : proto -> z rd
+
+val r_len : proto -> z rd
+
+val r_bytes : proto -> bytes rd
+
+val r_field : proto -> ((z * z) * bool) rd
+
+val r_list : proto -> (z * z) rd
+
+val r_map : proto -> ((z * z) * z) rd
+
+val skip : nat -> proto -> z -> bytes -> bytes tres
+
+val set_nth0 : tval list -> nat -> tval -> tval list
+
+val tval_eqb : tval -> tval -> bool
+
+val map_set : (tval * tval) list -> tval -> tval -> (tval * tval) list
+
+val set_add : tval list -> tval -> tval list
+
+val wrap_ptrs : tty -> tval -> tval
+
+val dec : nat -> proto -> tty -> z -> tval -> bytes -> (tval * bytes) tres
+
+val tUnmarshal : nat -> proto -> tty -> bytes -> tval tres
+
+val tlim : z
+
+val is_key_ty : tty -> bool
+
+val distinctZ : z list -> bool
+
+val zero_size : tty -> bool
+
+val ty_ok : tty -> bool
+
+val tval_wf : tty -> tval -> bool
+
+val tnorm : tty -> tval -> tval
+
+val spec_code : proto -> tty -> z
+
+type deviations = { dev_typecodes : bool; dev_stop3 : bool;
+                    dev_double_be : bool }
+
+val no_dev : deviations
+
+val pkg_dev : deviations
+
+val le_bytes8 : nat -> z -> bytes
+
+val code_of : deviations -> proto -> tty -> z
+
+val s_i32 : proto -> z -> bytes
+
+val s_list_header : proto -> z -> z -> bytes
+
+val spec_enc : deviations -> proto -> tty -> tval -> bytes
